@@ -183,6 +183,7 @@ type EmMsg struct {
 	CollID    int64
 	PartID    int64
 	PartName  string
+	PartIDs   []int64 // import messages
 	Shard     string
 	PosCh     string
 	PosSeq    int
@@ -871,6 +872,8 @@ func summarize(x msgstream.TsMsg) *EmMsg {
 		e.Type, e.Tag, e.CollID, e.PartID, e.PartName = "dropp", m.Base.GetMsgID(), m.CollectionID, m.PartitionID, m.PartitionName
 	case *msgstream.DropCollectionMsg:
 		e.Type, e.Tag, e.CollID = "dropc", m.Base.GetMsgID(), m.CollectionID
+	case *msgstream.ImportMsg:
+		e.Type, e.Tag, e.CollID, e.PartIDs = "imp", m.Base.GetMsgID(), m.CollectionID, append([]int64(nil), m.PartitionIDs...)
 	case *msgstream.TimeTickMsg:
 		e.Type = "tick"
 		e.TickValue = m.Base.GetTimestamp()
